@@ -32,9 +32,40 @@ def build_matrix_rows(ctx, it=None):
     ctx.touch(q)
     it = it or interp(ctx)
     paths = returns(it.run_function(q, args={"kt_h2": lambda: Vec(k_atom(nf.sym(J)), N)}))
-    if len(paths) != 1 or not isinstance(paths[0].value, ExtObj) or paths[0].value.qual != "scipy.sparse.diags":
-        raise AnalysisError("_build_matrix does not return a scipy.sparse.diags matrix on a single path")
-    return rows_of(paths[0].value, N), paths[0].value
+    if len(paths) == 1:
+        if not isinstance(paths[0].value, ExtObj) or paths[0].value.qual != "scipy.sparse.diags":
+            raise AnalysisError("_build_matrix does not return a scipy.sparse.diags matrix on a single path")
+        return rows_of(paths[0].value, N), paths[0].value
+    # several partitions (a size threshold, a fast path): every one has to assemble the same matrix
+    good, bad = [], []
+    for p in sorted(paths, key=lambda p_: sum(1 for _k, c, _d in p_.decisions if c)):
+        tag = ", ".join(("" if c else "not ") + d[:60] for _k, c, d in p.decisions)
+        if not isinstance(p.value, ExtObj) or p.value.qual != "scipy.sparse.diags":
+            bad.append((tag, "does not return a scipy.sparse.diags matrix"))
+            continue
+        try:
+            good.append((tag, rows_of(p.value, N), p.value))
+        except AnalysisError as e:
+            bad.append((tag, str(e)))
+    if not good:
+        raise AnalysisError("_build_matrix does not return a readable scipy.sparse.diags matrix on any path")
+    main = good[0]
+    key = lambda rows: {lab: {k: nf.key(v) for k, v in row.items()} for lab, row in rows.items()}
+    for tag, rows, _v in good[1:]:
+        if key(rows) != key(main[1]):
+            bad.append((tag, "assembles a different matrix"))
+    f = ctx.P.func(q)
+    seen = ctx.__dict__.setdefault("_bm_seen", set())
+    for tag, why in bad:
+        if (tag, why) in seen:
+            continue
+        seen.add((tag, why))
+        ctx.bad(
+            f"{ctx.prop}-a", q + f":one matrix for every size [{tag}]", f.where(),
+            "_build_matrix assembles the same tridiagonal matrix (bands of length n-1, n, n-1 taken from the coefficient vector) for every input; a partition of the inputs that builds something else - or hands scipy bands of another length, which it truncates or rejects - is a different scheme there",
+            signature="matrix partition " + why[:80], selected_by=tag, problem=why,
+        )
+    return main[1], main[2]
 
 
 def rows_of(diags: ExtObj, n):
